@@ -96,6 +96,29 @@ def choose_fault(rng, ops, phm):
     return [f], ph
 
 
+def actual_site(res, fcls, planned):
+    """Where the abnormal ending really struck, from the run's own trace: the phase of the first operation at which a
+    planned fault fired; a kill anywhere between the first rename over a source file and the lock update is the
+    'publish-window' (IDs are on disk, the lock does not know yet)."""
+    phm = scen.phases(res.ops)
+    first = None
+    for o in res.ops:
+        if o.fired != "-":
+            first = o
+            break
+    if first is None:
+        return planned
+    ph = phm.get(first.k, planned)
+    if fcls == "ioerr" and any(o.fired != "-" and o.cls() == "lock" and o.kind in ("OPEN_W", "WRITE", "RENAME") for o in res.ops):
+        return "lock-write"
+    if fcls == "kill":
+        renamed = any(o.kind == "RENAME" and o.ret == 0 and o.cls() == "scratch" and o.k <= first.k and
+                      not (o.k == first.k and "kill_before" in first.fired) for o in res.ops)
+        if renamed:
+            return "publish-window"
+    return ph
+
+
 def base_plan(seed):
     return {"seed": seed, "perm": True, "faults": []}
 
@@ -112,12 +135,18 @@ def execute(wm0, knobs, steps, seed, ctx, rng=None):
     owner = {}
     tool_max = None
     last_abn = "none"
+    lock_broken_by = None
     fired_any = False
     digest = hashlib.sha256()
     try:
         core.materialise(world.wm_world(wm), root)
-        for mk, i in world.wm_ids(wm).items():
-            owner[i] = mk
+        # Planted IDs are protected from the moment a lock file exists (a fresh project's tool cannot know about a
+        # statement the developer removed before the first lock was ever written); tool-written IDs always are.
+        lock_seen = wm.get("lock") is not None
+        tool_ids = set()
+        if lock_seen:
+            for mk, i in world.wm_ids(wm).items():
+                owner[i] = mk
         for si, st in enumerate(steps):
             st = copy.deepcopy(st)
             if st["op"] == "dev":
@@ -171,8 +200,11 @@ def execute(wm0, knobs, steps, seed, ctx, rng=None):
             fcls = scen.fault_class(f0) if f0 else "none"
             site = st.get("site", "none")
             if abnormal and fired:
+                site = actual_site(res, fcls, site)
+            if abnormal and fired:
                 fired_any = True
-                last_abn = "%s/%s/%s" % (res.ending(), fcls, site)
+                if lock_broken_by is None:
+                    last_abn = "%s/%s/%s" % (res.ending(), fcls, site)
                 if fcls == "kill":
                     ctx.probes["kill_in_history"] += 1
                 elif fcls.startswith("SIG"):
@@ -189,17 +221,23 @@ def execute(wm0, knobs, steps, seed, ctx, rng=None):
             if not check and si >= 2 and steps[si - 2]["op"] == "dev" and steps[si - 2]["edit"]["kind"] == "del_top":
                 ctx.probes["highest_id_deleted_then_run"] += 1
             inserted = [n for (_p, _mk, n, _t) in info["inserted"]]
+            tool_ids.update(inserted)
+            lk0 = disk.get("proj/Breadlog.lock")
+            if lk0 is not None and lk0["t"] == "f" and core.read_lock(lk0["data"]) is not None:
+                lock_seen = True
             if inserted:
                 tool_max = max(inserted + ([tool_max] if tool_max is not None else []))
             scenario = {"wm": world.wm_to_json(wm0), "knobs": knobs, "steps": explicit + [], "seed": seed}
             dg_now = hashlib.sha256((digest.hexdigest() + core.digest_world(disk)).encode()).hexdigest()
             # (a) behavioural form
             for mk, i in sorted(world.wm_ids(wm).items()):
+                if not lock_seen and i not in tool_ids:
+                    continue
                 prev = owner.get(i)
                 if prev is not None and prev != mk:
                     viols.append({"signature": "id-reused|after:%s" % last_abn,
-                                  "what": "step %d: ID %d, once written for statement %s, is now on statement %s (most recent "
-                                          "abnormal run: %s)" % (si, i, prev, mk, last_abn),
+                                  "what": "step %d: ID %d, once written for statement %s, is now on statement %s (blamed run: %s)"
+                                          % (si, i, prev, mk, last_abn),
                                   "scenario": _cut(scenario), "digest": dg_now, "step": si})
                     owner[i] = mk
                 elif prev is None:
@@ -209,7 +247,12 @@ def execute(wm0, knobs, steps, seed, ctx, rng=None):
             if not check and tool_max is not None:
                 lk = disk.get("proj/Breadlog.lock")
                 val = core.read_lock(lk["data"]) if lk and lk["t"] == "f" else None
-                if val is None or val <= tool_max:
+                if (val is None or val <= tool_max) and lock_broken_by is None:
+                    # reported once per history, at the run after which the lock first fell behind; later
+                    # id-reused reports are blamed on that run
+                    lock_broken_by = "%s/%s/%s" % (res.ending(), fcls if (abnormal and fired) else "none",
+                                                   site if (abnormal and fired) else "none")
+                    last_abn = lock_broken_by
                     sig = "lock-behind|%s|%s|%s" % (res.ending(), fcls if (abnormal and fired) else "none",
                                                     site if (abnormal and fired) else "none")
                     lockdesc = "absent" if lk is None else ("unparsable (%d bytes)" % len(lk["data"]) if val is None else str(val))
